@@ -340,6 +340,13 @@ func (ch accessListAddSlotChange) Dirtied() *common.Address {
 type PrecompileCalled struct {
 	MultiStore store.CacheMultiStore
 	Events     sdk.Events
+
+	// cachedObjects is the set of state objects that were cached in the
+	// [StateDB] when the snapshot was taken.
+	cachedObjects map[common.Address]struct{}
+	// dirties is a copy of the journal's dirty counts when the snapshot was
+	// taken, i.e. before the commit to the cache context resets them.
+	dirties map[common.Address]int
 }
 
 var _ JournalChange = PrecompileCalled{}
@@ -355,6 +362,23 @@ func (ch PrecompileCalled) Revert(s *StateDB) {
 		// TODO: Check correctness of the emitted events
 		// https://github.com/NibiruChain/nibiru/issues/2096
 		ch.MultiStore.Write()
+	}
+	// State objects cached after the snapshot were loaded from the multistore
+	// that is discarded here. Drop them so that they are loaded again from the
+	// restored one.
+	if ch.dirties != nil {
+		dirties := make(map[common.Address]int, len(ch.dirties))
+		for addr, count := range ch.dirties {
+			dirties[addr] = count
+		}
+		s.Journal.dirties = dirties
+	}
+	if ch.cachedObjects != nil {
+		for addr := range s.stateObjects {
+			if _, ok := ch.cachedObjects[addr]; !ok {
+				delete(s.stateObjects, addr)
+			}
+		}
 	}
 }
 
